@@ -80,7 +80,9 @@ impl<R: AsyncRead + Unpin + Send + Sync> AsyncReadPacket for R {
             let mut buffer = vec![0; len as usize];
             self.read_exact(&mut buffer).await?;
 
-            return String::from_utf8(buffer).map_err(|_| Error::InvalidEncoding);
+            return cesu8::from_java_cesu8(&buffer)
+                .map(std::borrow::Cow::into_owned)
+                .map_err(|_| Error::InvalidEncoding);
         }
 
         // expect it to take the full buffer (the text component is the last element in the packet)
